@@ -245,6 +245,45 @@ def tmpl_impl(size: Optional[int], key_seq: List[str]) -> dict:
     return {"idents": idents, "transparent": transparent, "types_ok": types_ok, "entries": n, "maxsize": cap}
 
 
+def many_keys_stream(ch: core.Check, n: int) -> None:
+    """Transparency over many distinct keys at once: `n` distinct sources compiled through one cache large enough to
+    hold them all; every returned Template must be the compilation of *its* source (`.source`), and a repeated key
+    must return the identical object.  A lossy cache key (a digest, a prefix, a normalised source) makes two sources
+    share an entry; with n = 20 000 a key narrower than ~28 bits collides with near certainty."""
+    from django.template import Template
+    from django.test import override_settings
+
+    import django_components.cache as dcache
+    from django_components import cached_template
+
+    with override_settings(COMPONENTS={"template_cache_size": 4 * n, "autodiscover": False}):
+        dcache.template_cache = None
+        try:
+            first = {}
+            for i in range(n):
+                src = "<li>row %d: {{ value }}</li>" % i
+                t = cached_template(src)
+                ch.count("many-keys", 1, 1)
+                if getattr(t, "source", src) != src or type(t) is not Template:
+                    ch.violation(
+                        "impl-violates-spec", "many-keys",
+                        {"template_cache_size": 4 * n, "sources": ["<li>row %d: {{ value }}</li>" % j for j in (i,)],
+                         "earlier_source": getattr(t, "source", None), "index": i},
+                        impl={"returned_source": getattr(t, "source", None), "type": type(t).__name__}, spec="cached_transparent: "
+                        "the Template returned for a source is the compilation of that source (distinct sources never share an entry)",
+                    )
+                    return
+                first[i] = t
+            for i in range(0, n, max(1, n // 500)):
+                if cached_template("<li>row %d: {{ value }}</li>" % i) is not first[i]:
+                    ch.violation("impl-violates-spec", "many-keys", {"template_cache_size": 4 * n, "index": i},
+                                 impl="a different object for a key that is still cached", spec="cached_identity_stable")
+                    return
+            ch.nontrivial(("many-keys", n))
+        finally:
+            dcache.template_cache = None
+
+
 def component_stream(ch: core.Check, r) -> None:
     from django.template import Context, Template
     from django.test import override_settings
@@ -412,6 +451,9 @@ def run(tier: str) -> int:
     ch.cov["extracted_template_cache_size_default"] = ch.cov.get("extracted", {}).get("template_cache_size")
 
     component_stream(ch, core.rng(PROP, "component"))
+    n_many = 20000 if tier == "quick" else 120000
+    many_keys_stream(ch, n_many)
+    ch.cov["many_keys"] = n_many
 
     ch.cov["rule"] = (
         f"blackbox: all op sequences of length {L} over get/has/set x {KEYS} + clear (every prefix observed) x caps "
